@@ -76,6 +76,7 @@ type lockAnalysis struct {
 	dynHeld  []lockSet       // held sets at `cmd.Func(...)`
 	dynFuncs map[string]bool // functions stored in the command table
 	seq      map[string][]string // function -> lock operations in source order
+	acq      []lockCall          // (function, lock acquired, locks held at that point)
 	exported map[string]bool
 	decls    map[string]bool
 }
@@ -268,6 +269,9 @@ func (a *lockAnalysis) walkBlock(p *packages.Package, fn string, stmts []ast.Stm
 			if call, ok := v.X.(*ast.CallExpr); ok {
 				if name, op := a.lockOp(p, call); name != "" {
 					a.seq[fn] = append(a.seq[fn], name+"."+op)
+					if op == "Lock" || op == "RLock" {
+						a.acq = append(a.acq, lockCall{caller: fn, callee: name, held: held.clone()})
+					}
 					switch op {
 					case "Lock":
 						held[name+":W"] = true
@@ -448,6 +452,7 @@ func (x *extractor) genLocks() {
 	a.accesses = nil
 	a.calls = nil
 	a.seq = map[string][]string{}
+	a.acq = nil
 	for _, b := range bodies {
 		a.walkBlock(b.p, b.key, b.body.List, lockSet{}, writeTargets(b.body))
 	}
@@ -604,6 +609,76 @@ func (x *extractor) genLocks() {
 	for i, k := range en {
 		fmt.Fprintf(&b, "  (%s, [%s])", leanStr(k), strings.Join(mapStr(entry[k].list(), leanStr), ", "))
 		if i+1 < len(en) {
+			b.WriteString(",")
+		}
+		b.WriteString("\n")
+	}
+	b.WriteString("]\n\n/-- lock order: (held, acquired) for every acquisition made while another mutex is held (locks of the callers included) -/\ndef lockOrder : List (String × String × String) := [\n")
+	// for the lock ORDER every lock that MAY be held on entry counts (union over the call sites, exported
+	// functions included: api handlers call IRCServer methods while holding locks)
+	may := map[string]lockSet{}
+	for k := range a.decls {
+		may[k] = lockSet{}
+	}
+	for iter := 0; iter < 50; iter++ {
+		changed := false
+		for callee, cs := range sites {
+			if may[callee] == nil {
+				continue
+			}
+			for _, c := range cs {
+				add := c.held.clone()
+				if !strings.HasSuffix(c.caller, "$go") {
+					for l := range may[base(c.caller)] {
+						add[l] = true
+					}
+				}
+				for l := range add {
+					if !may[callee][l] {
+						may[callee][l] = true
+						changed = true
+					}
+				}
+			}
+		}
+		if !changed {
+			break
+		}
+	}
+	type op3 struct{ held, acq, fn string }
+	seen3 := map[op3]bool{}
+	var ord []op3
+	for _, q := range a.acq {
+		h := q.held.clone()
+		if !strings.HasSuffix(q.caller, "$go") {
+			for l := range may[q.caller] {
+				h[l] = true
+			}
+		}
+		for l := range h {
+			name := l[:len(l)-2]
+			if name == q.callee {
+				continue
+			}
+			o := op3{name, q.callee, q.caller}
+			if !seen3[o] {
+				seen3[o] = true
+				ord = append(ord, o)
+			}
+		}
+	}
+	sort.Slice(ord, func(i, j int) bool {
+		if ord[i].held != ord[j].held {
+			return ord[i].held < ord[j].held
+		}
+		if ord[i].acq != ord[j].acq {
+			return ord[i].acq < ord[j].acq
+		}
+		return ord[i].fn < ord[j].fn
+	})
+	for i, o := range ord {
+		fmt.Fprintf(&b, "  (%s, %s, %s)", leanStr(o.held), leanStr(o.acq), leanStr(o.fn))
+		if i+1 < len(ord) {
 			b.WriteString(",")
 		}
 		b.WriteString("\n")
